@@ -1,5 +1,6 @@
 """C02 — stored individuals carry the true fitness of their genome; history is immutable."""
 from . import _whole
+from .. import components
 
 
 def cache_pairs(ctx, results):
@@ -30,6 +31,19 @@ def _replay_cache(ctx, data):
 cache_pairs.replay_name, cache_pairs.replay = "cache", _replay_cache
 
 
+def pop_components(ctx, results):
+    r = components.run_components(ctx, ctx.n(1600, 40000), "C02-pop", kinds=("pop", "pop-de"), pid="C02")
+    return {"violations": r["violations"], "disagreements": r["disagreements"], "evaluations": r["evaluations"], "validated": r["validated"], "distinct_nontrivial": r["distinct_nontrivial"],
+            "notes": {"population_operator_cases_compared_with_model": r["validated"]}}
+
+
+def _replay_pop(ctx, data):
+    return False, "population operator case: " + str(data.get("what"))[:300]
+
+
+pop_components.replay_name, pop_components.replay = "component", _replay_pop
+
+
 def nontrivial(r):
     return r["stats"].get("demes", 0) > 1 and r["stats"].get("metaepochs", 0) >= 2
 
@@ -42,6 +56,6 @@ _whole.install(globals(), "C02",
                note="Object identity / aliasing is a runtime matter the Gallina model cannot express; it is covered only by the recorder's re-hashing (partial). Local search: the pair (x, fun) "
                     "scipy hands to the callback is checked against the objective by the monitor (contract X5). " + _whole.HIST_NOTE,
                technique="Coq invariant of the history machine over all event streams + vm_compute trace replay + re-evaluation monitor on real runs",
-               quick=200, thorough=5000, nontrivial=nontrivial, machine_replay=False, hist_replay=True, extra_checks=[cache_pairs],
+               quick=200, thorough=5000, nontrivial=nontrivial, machine_replay=False, hist_replay=True, extra_checks=[cache_pairs, pop_components],
                forces=[(3, {"cap_evals": 900}), (1, {"cap_evals": 900, "height": 2, "engines": ["DE", "Local"]}), (1, {"cap_evals": 900, "height": 2, "engines": ["SHADE", "DE"]}),
                        (1, {"cap_evals": 900, "height": 3, "per_level_problems": True, "wrappers": "none"}), (1, {"cap_evals": 900, "height": 2, "per_level_problems": True, "wrappers": "counting", "engines": ["SEA", "DE"]})])
